@@ -16,6 +16,7 @@ EXPLANATION = (
     'Also decided: every ConnectionClosedError of receive_data carries partialData; the buffer is created once; a short MSG_WAITALL read is handed over to the manual loop and not repeated; no fall-through; sendall is not retried; errno is read without indexing args; only ConnectionClosedError handlers read partialData. '
     'Also decided (round 7): The read that passes recv flags is guarded by a test of the socket it reads from. '
     'Also decided (round 8): The retry table (also when computed from errno names) contains all four transient errnos. '
+    'Also decided (round 10): The back-off generator never ends. '
     'Also decided (round 9): Timeouts are set with settimeout() only (no SO_RCVTIMEO/SO_SNDTIMEO). '
     "Not decided: exact bytes/order under scripts of partial reads, timing, MSG_WAITALL semantics."
 )
